@@ -15,7 +15,7 @@ SCOPE = [("manager.collapse", 120, 50, {"tz": z}) for z in ZONES_QUICK] + \
 ORACLE_RULE = ("C18: the C03 scenarios on the real CandleManager in worker processes whose TZ is set to each zone (tzset), including streams placed "
                "on DST transition days of that zone (optionally with sub-second stamps, dict / list encoded chunks and a lifespan), compared exactly with the zone-free independent resampler")
 ASSUMPTIONS = ["the tz database and datetime's own fold/gap rules are runtime and trusted",
-               "naive timestamps; with sub-second parts (which the library drops at places of its own choosing - C03's domain is whole seconds) the run under a zone is compared with the same run under UTC instead of with the resampler"]
+               "streams that step back in time (outside C03's domain: non-decreasing stamps) are compared zone-against-UTC as well: the same outcome - candles or the same exception - in every zone", "naive timestamps; with sub-second parts (which the library drops at places of its own choosing - C03's domain is whole seconds) the run under a zone is compared with the same run under UTC instead of with the resampler"]
 PARTIAL = 'the Lean model has no zone parameter; that the code consults no zone is established by the tz correspondence (sampled), not by a theorem'
 TRUSTED_EXTRA = ["C18: zone independence of the code is tied by running the correspondence under several TZ settings (sampled)"]
 
@@ -31,7 +31,7 @@ TRANSITIONS = {
 def _check(scn, tz):
     """whole-second stamps: against the zone-free independent resampler.  Sub-second stamps (which the library drops at places of
     its own choosing): the same run under this zone and under UTC must give identical candles - the property itself."""
-    if not scn.get("subsec"):
+    if not scn.get("subsec") and not scn.get("stepback"):
         return om.check_scn(scn)
     here = om.collect_scn(scn)
     old = os.environ.get("TZ")
@@ -59,7 +59,11 @@ def _case(rng, idx, params):
     # the library), dict / list encodings of appended chunks, and lifespan trimming
     if rng.random() < 0.4:
         scn["subsec"] = [rng.choice([0, 1, 250000, 999999]) for _ in range(7)]
-    scn["enc"] = rng.choice(["candle", "candle", "dict", "list"])
+    scn["enc"] = rng.choice(["candle", "candle", "dict", "list", "dict_iso", "dict_iso"])
+    if scn["enc"] == "dict_iso" and scn.get("chunks") and scn.get("init", 0) > 1 and rng.random() < 0.5:
+        # let most of the stream arrive through append, where the encoding applies
+        rest = len(scn["stream"]) - 1
+        scn["init"], scn["chunks"] = 1, ([1] * rest if rng.random() < 0.5 else [rest])
     meta.update({"subsec": bool(scn.get("subsec")), "enc": scn["enc"], "life": scn.get("life") is not None})
     if tz in TRANSITIONS and rng.random() < 0.6 and scn["stream"]:
         span = scn["stream"][-1][0] - scn["stream"][0][0]
@@ -67,6 +71,16 @@ def _case(rng, idx, params):
         shift = base - scn["stream"][0][0]
         scn["stream"] = [(t + shift,) + tuple(r) for (t, *r) in scn["stream"]]
         meta["transition_day"] = True
+    if rng.random() < 0.12 and len(scn["stream"]) >= 4:
+        # a stream that STEPS BACK (a stale tick, an hour delivered twice): whatever the library does with it - merge it, drop it,
+        # raise InvalidCandleOrder - it must do the same in every zone; compared with the same run under UTC
+        k = rng.randint(2, len(scn["stream"]) - 1)
+        back = rng.choice([1, 2, 5]) * rng.choice([60, 600, 3600]) + rng.randint(0, 59)
+        t, *r = scn["stream"][k]
+        scn["stream"] = scn["stream"][:k] + [(scn["stream"][k - 1][0] - back,) + tuple(r)] + scn["stream"][k:]
+        scn = om._fix_sched(scn)
+        scn["stepback"] = True
+        meta["stepback"] = True
     bad = _check(scn, tz)
     viol = None
     if bad:
